@@ -3,6 +3,7 @@ from .common import *
 from ..nativeio import differential
 
 ID = "C15"
+NATIVE_BOUNDED = (40, 400)        # (quick, thorough) native corpus sizes - bounded stand-in for rounding effects
 MIN_OBLIGATIONS = 20
 
 
